@@ -25,6 +25,16 @@
 (* the model's txn (InTxn) at the same point; differences go to `obs`        *)
 (* (k = "tx" / "idle").  A mismatch note in `bad` carries the observed tx    *)
 (* and the model's transaction state of the process (mtx) at that point.     *)
+(* Side files (the restore).  An "unlink" event (the unlinks of create_db's  *)
+(* restore branch, one step) carries kw / ks: the step did NOT remove       *)
+(* <db>-wal / <db>-shm.  The model's step is performed WITH THE OBSERVED     *)
+(* set of side files left in place (W!UnlinkK), so what follows - whose      *)
+(* first access trusts an index without its log, who reads another           *)
+(* database's pages, for how long - is computed by the model's side-file     *)
+(* rules; the event itself is a mismatch ("the restore left a side file")    *)
+(* unless the set is what the model's restore leaves (nothing).  Ghost       *)
+(* sf.stale / sf.live travel with every mismatch note and with the verdict.  *)
+(* Process 0 may perform "backup" (backup_db of the creating context).       *)
 EXTENDS Naturals, Sequences, FiniteSets, TLC, Json, IOUtils
 
 TraceFile == JsonDeserialize(IOEnv.TRACE_FILE)
@@ -32,13 +42,13 @@ Traces == TraceFile.traces
 T_Procs == 1..TraceFile.maxprocs
 T_Dev == {"RestoreRaceOnStartup", "BootstrapUnderSnapshot", "BootcheckNeverHits"}
 ScnOf(t) == [bak |-> Traces[t].scn.bak, boot |-> Traces[t].scn.boot, cursor |-> Traces[t].scn.cursor, drv |-> Traces[t].scn.drv,
-             prov |-> Traces[t].scn.prov, rdr |-> Traces[t].scn.rdr]
+             prov |-> Traces[t].scn.prov, rdr |-> Traces[t].scn.rdr, bkd |-> Traces[t].scn.bkd]
 T_Scn == {ScnOf(t) : t \in 1..Len(Traces)}
 
-VARIABLES scn, pmain, pbak, ino, wlock, pc, conn, snap, saw, res, chk, raced, snapfail, opn, life, txn, tid, used, bad, obs
+VARIABLES scn, pmain, pbak, ino, wlock, pc, conn, snap, saw, res, chk, raced, snapfail, opn, life, txn, sf, tid, used, bad, obs
 W == INSTANCE Workers WITH Procs <- T_Procs, Dev <- T_Dev, Scenarios <- T_Scn
-wvars == <<scn, pmain, pbak, ino, wlock, pc, conn, snap, saw, res, chk, raced, snapfail, opn, life, txn>>
-tvars == <<scn, pmain, pbak, ino, wlock, pc, conn, snap, saw, res, chk, raced, snapfail, opn, life, txn, tid, used, bad, obs>>
+wvars == <<scn, pmain, pbak, ino, wlock, pc, conn, snap, saw, res, chk, raced, snapfail, opn, life, txn, sf>>
+tvars == <<scn, pmain, pbak, ino, wlock, pc, conn, snap, saw, res, chk, raced, snapfail, opn, life, txn, sf, tid, used, bad, obs>>
 
 Events == Traces[tid].events
 
@@ -48,7 +58,7 @@ ClsOf(lab) ==
   CASE lab = "exists" -> "exists" [] lab = "unlink" -> "unlink" [] lab = "rename" -> "rename"
     [] lab = "connect" -> "connect" [] lab = "script" -> "script" [] lab = "cursor" -> "cursor"
     [] lab = "read1" -> "read" [] lab = "read2" -> "read" [] lab = "bootcheck" -> "bootcheck"
-    [] lab = "insert" -> "write" [] lab = "commit" -> "commit" [] OTHER -> "none"
+    [] lab = "insert" -> "write" [] lab = "commit" -> "commit" [] lab = "backup" -> "backup" [] OTHER -> "none"
 \* process 0 is the creating context; a context whose page work is over is at its close
 ClsAt(p) == IF W!CanClose(p) THEN "close" ELSE ClsOf(pc[p])
 LabAt(p) == IF W!CanClose(p) THEN "close" ELSE pc[p]
@@ -63,7 +73,7 @@ ModelResult(p) ==
   LET lab == pc[p] IN
   CASE lab = "exists" -> IF pbak # 0 THEN "yes" ELSE "no"
     [] lab = "rename" -> IF pbak = 0 THEN "fnf" ELSE "ok"
-    [] lab = "script" -> IF pmain # conn[p] THEN "ioerr" ELSE "ok"
+    [] lab = "script" -> IF pmain # conn[p] \/ W!StaleIndex(p) THEN "ioerr" ELSE "ok"
     [] lab \in {"read1", "read2"} -> ReadResult(p)
     [] lab = "bootcheck" -> IF W!BootFound(p) THEN "yes" ELSE "no"
     [] lab = "insert" -> IF W!InsertFails(p) \/ W!IdleHeld(p) THEN "locked" ELSE "ok"
@@ -75,14 +85,19 @@ Same(real, model) == real = model \/ (real = "none" /\ model \in {"M", "B"})
 Idx == 1..Len(Events)
 \* no unconsumed event finished before this one started
 Ready(i) == i \notin used /\ \A j \in Idx \ used : j = i \/ ~(Events[j].t1 < Events[i].t0)
+\* the side files an unlink event reports as left in place, and the model's step with exactly those left
+KeptOf(e) == (IF e.cls = "unlink" /\ e.kw THEN {"wal"} ELSE {}) \cup (IF e.cls = "unlink" /\ e.ks THEN {"shm"} ELSE {})
+StepOf(e) == IF e.cls = "unlink" /\ pc[e.p] = "unlink" THEN W!UnlinkK(e.p, KeptOf(e)) ELSE W!Step(e.p)
 Clean(i) == LET e == Events[i] IN
             /\ ClsAt(e.p) = e.cls /\ ENABLED W!Step(e.p) /\ Same(e.r, ModelResult(e.p))
+            /\ KeptOf(e) = W!RestoreKeeps
 FirstReady == CHOOSE i \in Idx : Ready(i) /\ \A j \in Idx : Ready(j) => Events[i].t1 <= Events[j].t1
 
 Note(i, why, exp) ==
   LET e == Events[i] IN
   bad' = Append(bad, [i |-> i, p |-> e.p, cls |-> e.cls, r |-> e.r, why |-> why, expected |-> exp,
-                      raced |-> raced, snapfail |-> snapfail, life |-> life, tx |-> e.tx, mtx |-> txn[e.p]])
+                      raced |-> raced, snapfail |-> snapfail, life |-> life, tx |-> e.tx, mtx |-> txn[e.p],
+                      stale |-> sf.stale, kept |-> KeptOf(e)])
 
 \* to be used after W!Step(Events[i].p): the mode of the file the process is connected to, and the
 \* transaction state of its connection (a close: the state at the idle point BEFORE the step)
@@ -98,7 +113,7 @@ JmObs(i) ==
   \* order, and the states reached must not differ by the order in which differences were noted
   IN obs' = obs \cup jmo \cup txo
 
-ConsumeClean(i) == Ready(i) /\ Clean(i) /\ W!Step(Events[i].p) /\ JmObs(i) /\ bad' = bad /\ used' = used \cup {i}
+ConsumeClean(i) == Ready(i) /\ Clean(i) /\ StepOf(Events[i]) /\ JmObs(i) /\ bad' = bad /\ used' = used \cup {i}
 
 ConsumeBad ==
   /\ used # Idx /\ \A i \in Idx : Ready(i) => ~Clean(i)
@@ -110,7 +125,9 @@ ConsumeBad ==
         THEN Note(i, "operation not expected here", LabAt(p)) /\ UNCHANGED wvars /\ obs' = obs
         ELSE IF ~ENABLED W!Step(p)
         THEN Note(i, "step not enabled in the model", LabAt(p)) /\ UNCHANGED wvars /\ obs' = obs
-        ELSE W!Step(p) /\ JmObs(i) /\ Note(i, "result differs", ModelResult(p))
+        ELSE IF KeptOf(e) # W!RestoreKeeps /\ Same(e.r, ModelResult(p))
+        THEN StepOf(e) /\ JmObs(i) /\ Note(i, "the restore left a side file of the replaced database in place", "ok")
+        ELSE StepOf(e) /\ JmObs(i) /\ Note(i, "result differs", ModelResult(p))
 
 TNext == ((\E i \in Idx : ConsumeClean(i)) \/ ConsumeBad) /\ tid' = tid
 TSpec == TInit /\ [][TNext]_tvars
@@ -121,5 +138,6 @@ Verdict ==
                                 res |-> [i \in 1..Traces[tid].n |-> res[i]],
                                 store |-> (pmain # 0 /\ ino[pmain].c \ {"boot"} = {W!Exp}),
                                 raced |-> raced, snapfail |-> snapfail, life |-> life, obs |-> obs,
+                                stale |-> sf.stale, live |-> sf.live,
                                 jm |-> IF pmain # 0 THEN ino[pmain].jm ELSE "none"])>>)
 =============================================================================
